@@ -47,13 +47,13 @@ theorem natDigits_ne_nil (n : Nat) : natDigits n ≠ [] := (natDigitsFuel_spec (
 theorem natDigits_all (n : Nat) : (natDigits n).all isAsciiDigit = true := (natDigitsFuel_spec (n + 1) n (by omega)).2.1
 theorem natDigits_val (n : Nat) : decVal (natDigits n) = n := (natDigitsFuel_spec (n + 1) n (by omega)).2.2
 
-theorem parseNat_natDigits (n : Nat) : parseNat (natDigits n) = some n := by
+theorem parseNat_natDigits (n : Nat) : parseNat (natDigits n) = .ok n := by
   unfold parseNat
   have h1 : (natDigits n).isEmpty = false := by
     cases h : natDigits n with
     | nil => exact absurd h (natDigits_ne_nil n)
     | cons _ _ => rfl
-  simp only [h1, natDigits_all, Bool.not_true, Bool.or_self, Bool.false_eq_true, if_false]
+  simp only [h1, natDigits_all, Bool.false_eq_true, if_false, if_true]
   have := natDigits_val n
   unfold decVal at this
   rw [this]
